@@ -18,6 +18,14 @@ are computed here with Python arithmetic; values and weights are chosen so that
 every product and sum is exact in the value type (small dyadic floats; integer
 cases whose products or sums leave the value type's range are not generated -
 the statement does not speak of overflow).
+
+Object-keyed families (OI, OL, OU, OQ): None is a legal object key and sorts
+before every other key, so - like the extremes of the integer key types - it is
+a member of the key universe ("for all operand pairs"): every pair (A, B) with
+None in A, in B, in both or in neither is enumerated for every operand kind.
+A failure that needs the None key (the same case with None replaced by another
+smallest key, 0, in both operands passes that clause) carries the suffix
+":key-None"; one that does not need it is reported under the plain key.
 """
 import argparse
 import concurrent.futures as cf
@@ -46,6 +54,11 @@ def weights_of(fam):
     return w
 
 
+def skey(k):
+    """Documented key order of the object-keyed families: None before everything else."""
+    return (0, 0) if k is None else (1, k)
+
+
 def value(fam, side, i):
     if fam[1] == "F":
         return (i + 0.5) if side == 1 else (i * 2 + 1.25)
@@ -55,9 +68,11 @@ def value(fam, side, i):
 class Config:
     def __init__(self, fam, impl, nkeys, sizes):
         self.fam, self.impl, self.sizes = fam, impl, sizes
-        ex = [e for e in H.extremes(fam) if e is not None]
-        self.U = sorted(set(ex + [k for k in range(1, nkeys + 1)][:nkeys - len(ex)]))
+        ex = list(H.extremes(fam))                   # incl. None for object keys
+        self.U = sorted(set(ex + [k for k in range(1, nkeys + 1)][:nkeys - len(ex)]), key=skey)
         self.idx = {k: i for i, k in enumerate(self.U)}
+        if None in self.idx:
+            self.idx[0] = self.idx[None]             # stand-in for None when a failure is attributed (report)
         self.cls = {k: H.get_class(fam, k, impl, *sizes) for k in BT}
         m = H.family_module(fam)
         sfx = "Py" if impl == "py" else ""
@@ -65,7 +80,7 @@ class Config:
                    "weightedIntersection": getattr(m, "weightedIntersection" + sfx)}
         if impl == "c" and self.fn["weightedUnion"] is getattr(m, "weightedUnionPy"):
             raise RuntimeError("C extension for %s not built" % fam)
-        self.cache, self.fail, self.evals, self.nontrivial, self.sample = {}, {}, 0, 0, None
+        self.cache, self.fail, self.evals, self.nontrivial, self.nonekey, self.sample = {}, {}, 0, 0, 0, None
 
     def items(self, kind, A, side):
         return list(A) if kind in SETS else [(k, value(self.fam, side, self.idx[k])) for k in A]
@@ -84,7 +99,7 @@ class Config:
         intermediate result leaves the value type (not generated)."""
         union = fname == "weightedUnion"
         sA, sB = set(A), set(B)
-        keys = sorted(sA | sB) if union else sorted(sA & sB)
+        keys = sorted(sA | sB, key=skey) if union else sorted(sA & sB, key=skey)
         if k1 in SETS and k2 in SETS:
             wt = 1 if union else w1 + w2
             return (wt, "Set", keys, None) if self.inrange(wt) else None
@@ -107,6 +122,11 @@ class Config:
         wk = "default" if w is None else "frac" if any(x != int(x) for x in w) else \
             "neg" if min(w) < 0 else "zero" if 0 in w else "big" if max(w) >= 2**31 else "int"
         key = "weighted:%s:%s~%s:%s:%s:w-%s" % (self.impl, k1, k2, clause, fname, wk)
+        if None in A or None in B:
+            # does the clause need the None key?  the same call with another smallest key (0, same value) decides
+            A0, B0 = tuple(0 if k is None else k for k in A), tuple(0 if k is None else k for k in B)
+            if clause not in [c for c, _ in self.check(fname, k1, k2, A0, B0, w, [0] + self.U)[0]]:
+                key += ":key-None"
         if key in self.fail:
             self.fail[key][1] += 1
             return
@@ -128,52 +148,75 @@ class Config:
                    "c1": [k1, list(A)], "c2": [k2, list(B)], "weights": w},
             script=script), 1]
 
-    def case(self, fname, k1, k2, A, B, w):
+    def check(self, fname, k1, k2, A, B, w, U=None):
+        """One call and its contract -> ([(clause, message)], (weight, result) | None); None as
+        the first component: the case is outside the scope (would overflow the value type)."""
         w1, w2 = w or (1, 1)
         c1, c2 = self.operand(k1, A, 1), self.operand(k2, B, 2)
         none = k1 == "None" or k2 == "None"
         exp = None if none else self.expected(fname, k1, k2, A, B, w1, w2)
         if not none and exp is None:
-            return                                   # would overflow the value type: outside the scope
-        self.evals += 1
-        bad = lambda clause, msg: self.report(fname, k1, k2, clause, A, B, w, msg)
+            return None, None
+        out = []
+        bad = lambda clause, msg: out.append((clause, msg))
         try:
-            out = self.fn[fname](c1, c2) if w is None else self.fn[fname](c1, c2, w1, w2)
-            wt, res = out
+            got = self.fn[fname](c1, c2) if w is None else self.fn[fname](c1, c2, w1, w2)
+            wt, res = got
         except Exception as e:
             bad("raised", "raised %s: %s" % (type(e).__name__, e))
-            return
+            return out, None
         if none:                                     # None operands short-circuit
             want = (0, None) if k1 == k2 else (w2, c2) if k1 == "None" else (w1, c1)
             if wt != want[0] or res is not want[1]:
                 bad("none", "returned (%r, %r), documented (%r, %s)" % (
                     wt, res, want[0], "None" if want[1] is None else "the other operand itself"))
-            return
+            return out, (wt, res)
         ewt, ekind, ekeys, evals = exp
-        if A and B:
-            self.nontrivial += 1
         if wt != ewt:
             bad("weight", "returned weight %r, documented %r" % (wt, ewt))
         if type(res) is not self.cls[ekind]:
             bad("kind", "result is a %s, documented %s" % (type(res).__name__, ekind))
-            return
+            return out, (wt, res)
         if res is c1 or res is c2:
             bad("new", "the result is one of the operands")
-        ks = list(res.keys())
-        if ks != ekeys:
-            bad("keys", "keys %r, expected %r" % (ks, ekeys))
-        elif len(res) != len(ekeys) or [k for k in self.U if k in res] != ekeys:
-            bad("member", "len / membership disagree with the keys %r" % (ekeys,))
-        elif evals is not None and list(res.values()) != evals:
-            bad("values", "values %r, expected v1*w1 + v2*w2 = %r" % (list(res.values()), evals))
-        elif evals is not None and [res[k] for k in ekeys] != evals:
-            bad("values", "lookups disagree with values()")
-        if list(c1.keys() if k1 in SETS else c1.items()) != self.items(k1, A, 1) or \
-                list(c2.keys() if k2 in SETS else c2.items()) != self.items(k2, B, 2):
+        try:
+            ks = list(res.keys())
+            if ks != ekeys:
+                bad("keys", "keys %r, expected %r" % (ks, ekeys))
+            elif len(res) != len(ekeys) or [k for k in (U or self.U) if k in res] != ekeys:
+                bad("member", "len / membership disagree with the keys %r" % (ekeys,))
+            elif evals is not None and list(res.values()) != evals:
+                bad("values", "values %r, expected v1*w1 + v2*w2 = %r" % (list(res.values()), evals))
+            elif evals is not None and [res[k] for k in ekeys] != evals:
+                bad("values", "lookups disagree with values()")
+        except Exception as e:
+            bad("raised", "inspecting the result raised %s: %s" % (type(e).__name__, e))
+        try:
+            same = list(c1.keys() if k1 in SETS else c1.items()) == self.items(k1, A, 1) and \
+                list(c2.keys() if k2 in SETS else c2.items()) == self.items(k2, B, 2)
+        except Exception:
+            same = False
+        if not same:
             bad("operand-modified", "an operand was modified")
             self.cache.pop((k1, A, 1), None)
             self.cache.pop((k2, B, 2), None)
-        if self.sample is None and len(A) == 3 and len(B) == 3 and k1 == "TreeSet" and k2 == "BTree" and w == weights_of(self.fam)[2]:
+        return out, (wt, res)
+
+    def case(self, fname, k1, k2, A, B, w):
+        fails, got = self.check(fname, k1, k2, A, B, w)
+        if fails is None:
+            return                                   # would overflow the value type: outside the scope
+        self.evals += 1
+        if A and B and k1 != "None" and k2 != "None":
+            self.nontrivial += 1
+            if None in A or None in B:
+                self.nonekey += 1
+        for clause, msg in fails:
+            self.report(fname, k1, k2, clause, A, B, w, msg)
+        if self.sample is None and got and len(A) == 3 and len(B) == 3 and k1 == "TreeSet" and k2 == "BTree" and \
+                w == weights_of(self.fam)[2] and (self.fam[0] != "O" or (None in A) != (None in B)):
+            wt, res = got
+            w1, w2 = w
             self.sample = {"call": "%s%s(%s%r, %s%r, %r, %r)" % (self.fam, fname, k1, list(A), k2, self.items(k2, B, 2), w1, w2),
                            "returned": "(%r, %s %r)" % (wt, type(res).__name__, list(res.items()))}
 
@@ -190,7 +233,7 @@ def run_config(args):
                     for B in (subsets if k2 != "None" else [()]):
                         for w in ws:
                             c.case(fname, k1, k2, A, B, w)
-    return c.evals, c.nontrivial, [(f, n) for f, n in c.fail.values()], c.sample
+    return c.evals, c.nontrivial, [(f, n) for f, n in c.fail.values()], c.sample, c.nonekey
 
 
 def main():
@@ -203,7 +246,8 @@ def main():
     s = Standin(
         name="weighted_rt",
         bound="weightedUnion and weightedIntersection x all pairs of operand kinds {Set, TreeSet, Bucket, BTree at node "
-              "sizes 2/2, None} x all pairs (A, B) of subsets of %d keys (incl. the key extremes) x weights {default, small, "
+              "sizes 2/2, None} x all pairs (A, B) of subsets of %d keys (incl. the key extremes; object keys: incl. None, the "
+              "smallest object key, in A, in B, in both, in neither) x weights {default, small, "
               "0, negative (signed), > 32 bit (64-bit values) / > 2**20 (32-bit), fractional (float values)}; cases whose "
               "products or sums leave the value type are not generated; C and Python; families %s" % (nkeys, ",".join(fams)),
         rule="case = one call and its contract (weight, kind, newness, keys, len/membership, values == v1*w1 + v2*w2 by the "
@@ -214,10 +258,12 @@ def main():
                    "_base.weightedIntersection", "_prepMergeIterators", "MERGE / MERGE_WEIGHT (run-time)"])
     jobs = [(fam, impl, nkeys, (2, 2)) for impl in ("py", "c") for fam in fams]
     merged = {}
+    nonekey = 0
     with cf.ProcessPoolExecutor(max_workers=min(16, len(jobs) or 1)) as ex:
-        for (fam, impl, _, _), (ev, nt, fails, sample) in zip(jobs, ex.map(run_config, jobs)):
+        for (fam, impl, _, _), (ev, nt, fails, sample, nk) in zip(jobs, ex.map(run_config, jobs)):
             s.evaluations += ev
             s.distinct_nontrivial += nt
+            nonekey += nk
             if sample and fam == fams[-1]:           # one measured case per implementation
                 s.samples.append(sample)
             for f, n in fails:
@@ -225,6 +271,7 @@ def main():
     for f, where in merged.values():
         f.desc += "  [" + ", ".join(where) + "]"
         s.failures.append(f)
+    s.rule += "; %d of the non-trivial cases have None among the keys of an operand (measured)" % nonekey
     write_standin(a.out, s)
 
 
